@@ -38,6 +38,14 @@ REQUIRED = {'quick': {'sequences': 60, 'ops': 8000, 'reads.first_after_change': 
 
 def op_sequence(rng, n):
     ops = ['reset']
+    # patterns that ordinary loops never produce: back-to-back resets with reads in between, reads only at the same
+    # step index of consecutive episodes
+    ops += rng.choice([
+        [('obs', 1), 'reset', ('obs', 1)],
+        ['reset', ('obs', 2)],
+        [('step', 1), ('step', 2), ('obs', 1), 'reset', ('step', 3), ('step', 4), ('obs', 1)],
+        ['state', 'reset', 'reset', 'state', ('obs', 1)],
+    ])
     for _ in range(n):
         r = rng.random()
         if r < 0.55:
